@@ -12,6 +12,7 @@ import FluteModel.MultiRecv
     add|rm <ep> <tsi>  addall|rmall <ep>  filt <0|1>                                             -> ok
     push <ep> <tsi> <d|c|x> ...      data / close-session / unparsable packet                     -> ok [+key|-key]
     tick                             more than the session timeout elapses                        -> ok
+    pause                            (after `new <f> 10`) 3/10 of the session timeout elapses       -> ok
     cleanup                                                                                       -> ok [-key ...] (sorted)
     drop                                                                                          -> ok [-key ...] (sorted)
     ladd                             add_listener (the recording listener of `new` is id 0)          -> ok <id>
@@ -208,6 +209,12 @@ def stepA (d : DState) (args : List String) (env : Env) : DState × String :=
         let res := "ok"
         ({ d with mr := some s' }, withEvents res ((newEvents s s').map showEvent))
     | _, _, _ => (d, "bad-op")
+  | ["pause"] =>
+    -- only in receivers created with `new <f> 10`: session time-out = 10 units (1500 ms on the implementation side),
+    -- one pause = 3 units (450 ms): three pauses without data keep a session, `tick` (11 units) does not
+    match d.live, d.timeout with
+    | some _, some 10 => unitOp d (.tick 3)
+    | _, _ => (d, "bad-op")
   | ["tick"] =>
     -- one tick of the harness = strictly more than the session timeout
     match d.live with
